@@ -544,6 +544,7 @@ def main():
     ap.add_argument("--fresh", action="store_true")
     ap.add_argument("--only-file")
     ap.add_argument("--report", action="store_true")
+    ap.add_argument("--baseline", action="store_true", help="run ./check PID on an unchanged scratch tree with the current corpus")
     ap.add_argument("--probe", help="mutant selector 'file:line:desc-substring'")
     ap.add_argument("--case", action="append", default=[], help="op<TAB>args (literal \\t accepted)")
     ap.add_argument("--case-file", help="file of op<TAB>args lines (for cases too long for the command line)")
@@ -569,6 +570,16 @@ def main():
         json.dump(t, open(tp, "w"), indent=1, sort_keys=True)
         print("ok", a.pid, r["key"], cls)
         return 0
+    if a.baseline:
+        # ./check PID on an UNCHANGED scratch tree with the current corpus (must exit 0): run after corpus lines were added
+        w = Worker(a.pid, 80 + (os.getpid() % 9))
+        try:
+            w.setup()
+            b = w.check(max(a.timeout, 1800))
+            print("baseline %s: exit=%s wall=%ss %s %s" % (a.pid, b["check_exit"], b["check_wall_s"], b["summary"], b.get("violation") or b.get("error") or ""))
+        finally:
+            w.teardown()
+        return 0 if b["check_exit"] == 0 else 1
     if a.probe:
         return probe(a)
     if a.retest is not None:
